@@ -10,7 +10,9 @@
   * `iter_*`: one whole iteration `iter m p s = stepBody m p (updated m s)`;
   * `acts p τ k`: the number of active steps among the `k` steps executed from time `τ` on;
   * `IsCeil D r n`: `n = ⌈D / r⌉`, and `ceilNat_spec`: the ceiling satisfies it;
-  * `run_working`, `run_finished`, `run_working_iff`: the whole occupation;
+  * `run_working`, `run_ready`, `run_finished`, `run_working_iff`: the whole occupation (READY
+    until the first active step — nothing starts at a project absence step with the flag off —,
+    WORKING from then to the `n`-th active step);
   * `repeat_iter_tState`, `count_shownWorking`: the rows the occupation leaves in the log;
   * `stepsBelow` counted (for the duration of a saved run without its absence steps).
 -/
@@ -107,27 +109,35 @@ theorem active_iff (p : Params) (k : Nat) (ha : (m.task t).isAuto = true) :
       activeAt p k = true := by
   simp [workingAt, activeAt, ha]
 
-/-- one step on a READY or WORKING automatic task without component: it ends the step WORKING
-and has progressed by its rate if the step is active -/
+/-- one step on a READY or WORKING automatic task without component: if the step is active it
+ends the step WORKING and has progressed by its rate; if not (a project absence step with the flag
+off) nothing starts and nothing is performed: its state and remaining work are unchanged -/
 theorem stepBody_auto (p : Params) (s : St) (ht : t < m.nT)
     (ha : (m.task t).isAuto = true) (hc : (m.task t).comp = Option.none)
     (h : s.live.tstate t = .ready ∨ s.live.tstate t = .working) :
-    (stepBody m p s).live.tstate t = .working ∧
+    (stepBody m p s).live.tstate t =
+      (if activeAt p s.time = true then .working else s.live.tstate t) ∧
     (stepBody m p s).live.rem t =
       s.live.rem t - (if activeAt p s.time = true then (m.task t).autoRate else 0) := by
-  have hw : (preCost m p s).tstate t = .working := by
-    have hnr := NoWait.stepBody_auto m p s t ht ha hc
-    rw [Perform.stepBody_tstate] at hnr
-    rcases preCost_start (m := m) p s t with e | ⟨_, e⟩
-    · rcases h with h | h
-      · rw [e] at hnr; exact absurd h hnr
-      · rw [e]; exact h
-    · exact e
-  refine ⟨by rw [Perform.stepBody_tstate]; exact hw, ?_⟩
-  rw [stepBody_rem, contrib_auto _ ha]
   by_cases hact : activeAt p s.time = true
-  · rw [if_pos ⟨ht, hw, (active_iff p s.time ha).mpr hact⟩, if_pos hact]
-  · rw [if_neg (fun h => hact ((active_iff p s.time ha).mp h.2.2)), if_neg hact]; grind
+  · have hw : (preCost m p s).tstate t = .working := by
+      have hnr := NoWait.stepBody_auto m p s t ht ha hc hact
+      rw [Perform.stepBody_tstate] at hnr
+      rcases preCost_start (m := m) p s t with e | ⟨_, e⟩
+      · rcases h with h | h
+        · rw [e] at hnr; exact absurd h hnr
+        · rw [e]; exact h
+      · exact e
+    refine ⟨by rw [Perform.stepBody_tstate, if_pos hact]; exact hw, ?_⟩
+    rw [stepBody_rem, contrib_auto _ ha]
+    rw [if_pos ⟨ht, hw, (active_iff p s.time ha).mpr hact⟩, if_pos hact]
+  · have hab : p.absence.contains s.time = true ∧ p.autoFlag = false := by
+      simpa [activeAt] using hact
+    have hpc : (preCost m p s).tstate = s.live.tstate := by
+      rw [preCost_inactive p s hab.1 hab.2]; rfl
+    refine ⟨by rw [Perform.stepBody_tstate, hpc, if_neg hact], ?_⟩
+    rw [stepBody_rem, contrib_auto _ ha]
+    rw [if_neg (fun h => hact ((active_iff p s.time ha).mp h.2.2)), if_neg hact]; grind
 
 theorem stepBody_finished (p : Params) (s : St) (h : s.live.tstate t = .finished) :
     (stepBody m p s).live.tstate t = .finished ∧ (stepBody m p s).live.rem t = s.live.rem t := by
@@ -150,23 +160,26 @@ theorem repeat_iter_time (p : Params) (s : St) (k : Nat) :
   | succ k ih => show (iter m p _).time = _; rw [iter_time, ih]; omega
 
 /-- the task is READY after the `__update` of this iteration (it was READY before, or it was
-NONE and its start gate opened): it ends the iteration WORKING, performed once if the step is
-active -/
+NONE and its start gate opened): at an active step it ends the iteration WORKING, performed once;
+at an inactive step it stays READY with its remaining work -/
 theorem iter_start (h : SubTask m t) (p : Params) (s : St)
     (hu : (update m s.time s.live).tstate t = .ready) :
-    (iter m p s).live.tstate t = .working ∧
+    (iter m p s).live.tstate t = (if activeAt p s.time = true then .working else .ready) ∧
     (iter m p s).live.rem t =
       s.live.rem t - (if activeAt p s.time = true then (m.task t).autoRate else 0) := by
   have h1 := stepBody_auto (m := m) p (updated m s) h.lt h.auto h.nocomp (Or.inl hu)
-  refine ⟨h1.1, ?_⟩
-  rw [iter_eq, h1.2]
-  show (update m s.time s.live).rem t - _ = _
-  rw [update_rem_eq, if_neg]
-  · rfl
-  · rw [hu]; exact fun h => by cases h.1
+  refine ⟨?_, ?_⟩
+  · rw [iter_eq, h1.1]
+    show (if activeAt p s.time = true then TS.working else (update m s.time s.live).tstate t) = _
+    rw [hu]
+  · rw [iter_eq, h1.2]
+    show (update m s.time s.live).rem t - _ = _
+    rw [update_rem_eq, if_neg]
+    · rfl
+    · rw [hu]; exact fun h => by cases h.1
 
 theorem iter_ready (h : SubTask m t) (p : Params) (s : St) (hs : s.live.tstate t = .ready) :
-    (iter m p s).live.tstate t = .working ∧
+    (iter m p s).live.tstate t = (if activeAt p s.time = true then .working else .ready) ∧
     (iter m p s).live.rem t =
       s.live.rem t - (if activeAt p s.time = true then (m.task t).autoRate else 0) := by
   apply iter_start h
@@ -180,12 +193,14 @@ theorem iter_working_pos (h : SubTask m t) (p : Params) (s : St)
       s.live.rem t - (if activeAt p s.time = true then (m.task t).autoRate else 0) := by
   have hk := update_keep (m := m) s.time s.live t (by rw [hs]; exact fun h => by cases h)
     (fun h => Rat.not_le.mpr hr h.2)
-  have h1 := stepBody_auto (m := m) p (updated m s) h.lt h.auto h.nocomp
-    (Or.inr (by show (update m s.time s.live).tstate t = _; rw [hk.1, hs]))
-  refine ⟨h1.1, ?_⟩
-  rw [iter_eq, h1.2]
-  show (update m s.time s.live).rem t - _ = _
-  rw [hk.2]; rfl
+  have hu : (updated m s).live.tstate t = .working := by
+    show (update m s.time s.live).tstate t = _; rw [hk.1, hs]
+  have h1 := stepBody_auto (m := m) p (updated m s) h.lt h.auto h.nocomp (Or.inr hu)
+  refine ⟨?_, ?_⟩
+  · rw [iter_eq, h1.1, hu]; split <;> rfl
+  · rw [iter_eq, h1.2]
+    show (update m s.time s.live).rem t - _ = _
+    rw [hk.2]; rfl
 
 theorem iter_working_done (h : SubTask m t) (p : Params) (s : St)
     (hs : s.live.tstate t = .working) (hr : s.live.rem t ≤ 0) :
@@ -490,15 +505,24 @@ theorem rem_step (p : Params) (τ k : Nat) (D r : Rat) :
   · simp only [h, if_true, Rat.natCast_add]; grind
   · simp only [h, Rat.natCast_add]; grind
 
+theorem acts_succ_eq_zero (p : Params) (τ k : Nat) :
+    acts p τ (k + 1) = 0 ↔ acts p τ k = 0 ∧ ¬ activeAt p (τ + k) = true := by
+  rw [acts_succ]; split <;> simp [*]
+
+/-- the state the task is in after an iteration, given the number of active steps so far:
+READY until the first active step, WORKING from then on -/
+def occState (a : Nat) : TS := if a = 0 then .ready else .working
+
 /-- **Occupation.**  From a state `s0` whose `__update` leaves the task READY with remaining
 work `D`: as long as fewer than `n = ⌈D / r⌉` active steps had happened before the current
-iteration, the task ends the iteration WORKING with `D - acts · r` left. -/
+iteration, the task ends the iteration with `D - acts · r` left, READY if no active step has
+happened yet (nothing starts at an inactive step) and WORKING otherwise. -/
 theorem run_working (h : SubTask m t) (p : Params) (s0 : St) {D : Rat} {n : Nat}
     (hr : 0 < (m.task t).autoRate)
     (hstart : (update m s0.time s0.live).tstate t = .ready) (hrem : s0.live.rem t = D)
     (hn : IsCeil D (m.task t).autoRate n) :
     ∀ k, acts p s0.time k < n →
-      (Nat.repeat (iter m p) (k + 1) s0).live.tstate t = .working ∧
+      (Nat.repeat (iter m p) (k + 1) s0).live.tstate t = occState (acts p s0.time (k + 1)) ∧
       (Nat.repeat (iter m p) (k + 1) s0).live.rem t =
         D - (acts p s0.time (k + 1) : Rat) * (m.task t).autoRate := by
   intro k
@@ -506,28 +530,55 @@ theorem run_working (h : SubTask m t) (p : Params) (s0 : St) {D : Rat} {n : Nat}
   | zero =>
     intro _
     have h1 := iter_start h p s0 hstart
-    refine ⟨h1.1, ?_⟩
-    show (iter m p s0).live.rem t = _
-    rw [h1.2, hrem, ← rem_step p s0.time 0 D]
-    simp only [acts_zero, Nat.add_zero]
-    grind
+    refine ⟨?_, ?_⟩
+    · show (iter m p s0).live.tstate t = _
+      rw [h1.1, acts_succ, acts_zero, occState]
+      by_cases ha : activeAt p s0.time = true
+      · simp [ha]
+      · simp [ha]
+    · show (iter m p s0).live.rem t = _
+      rw [h1.2, hrem, ← rem_step p s0.time 0 D]
+      simp only [acts_zero, Nat.add_zero]
+      grind
   | succ k ih =>
     intro hk
     have hk' : acts p s0.time k < n := Nat.lt_of_le_of_lt (acts_le_succ p s0.time k) hk
     obtain ⟨i1, i2⟩ := ih hk'
-    have hpos : 0 < (Nat.repeat (iter m p) (k + 1) s0).live.rem t := by
-      rw [i2]; exact hn.rem_pos hr hk
-    have h1 := iter_working_pos h p _ i1 hpos
-    refine ⟨h1.1, ?_⟩
-    show (iter m p (Nat.repeat (iter m p) (k + 1) s0)).live.rem t = _
-    rw [h1.2, i2, repeat_iter_time, rem_step]
+    by_cases hz : acts p s0.time (k + 1) = 0
+    · -- still READY
+      rw [hz, occState, if_pos rfl] at i1
+      have h1 := iter_ready h p _ i1
+      refine ⟨?_, ?_⟩
+      · show (iter m p (Nat.repeat (iter m p) (k + 1) s0)).live.tstate t = _
+        rw [h1.1, repeat_iter_time, occState]
+        by_cases ha : activeAt p (s0.time + (k + 1)) = true
+        · have : acts p s0.time (k + 1 + 1) ≠ 0 := by
+            intro e; exact ((acts_succ_eq_zero p s0.time (k + 1)).mp e).2 ha
+          rw [if_pos ha, if_neg this]
+        · have : acts p s0.time (k + 1 + 1) = 0 :=
+            (acts_succ_eq_zero p s0.time (k + 1)).mpr ⟨hz, ha⟩
+          rw [if_neg ha, if_pos this]
+      · show (iter m p (Nat.repeat (iter m p) (k + 1) s0)).live.rem t = _
+        rw [h1.2, i2, repeat_iter_time, rem_step]
+    · -- WORKING with work left
+      rw [occState, if_neg hz] at i1
+      have hpos : 0 < (Nat.repeat (iter m p) (k + 1) s0).live.rem t := by
+        rw [i2]; exact hn.rem_pos hr hk
+      have h1 := iter_working_pos h p _ i1 hpos
+      refine ⟨?_, ?_⟩
+      · show (iter m p (Nat.repeat (iter m p) (k + 1) s0)).live.tstate t = _
+        have : acts p s0.time (k + 1 + 1) ≠ 0 := by
+          have := acts_le_succ p s0.time (k + 1); omega
+        rw [h1.1, occState, if_neg this]
+      · show (iter m p (Nat.repeat (iter m p) (k + 1) s0)).live.rem t = _
+        rw [h1.2, i2, repeat_iter_time, rem_step]
 
 /-- after the iteration in which the `n`-th active step happens the task is WORKING with no
 work left; one iteration later it is FINISHED, and it stays FINISHED -/
 theorem run_finished (h : SubTask m t) (p : Params) (s0 : St) {D : Rat} {n : Nat}
     (hr : 0 < (m.task t).autoRate)
     (hstart : (update m s0.time s0.live).tstate t = .ready) (hrem : s0.live.rem t = D)
-    (hn : IsCeil D (m.task t).autoRate n) (K : Nat)
+    (hn : IsCeil D (m.task t).autoRate n) (hn1 : 1 ≤ n) (K : Nat)
     (hK : acts p s0.time K < n) (hK' : acts p s0.time (K + 1) = n) :
     ((Nat.repeat (iter m p) (K + 1) s0).live.tstate t = .working ∧
      (Nat.repeat (iter m p) (K + 1) s0).live.rem t = D - (n : Rat) * (m.task t).autoRate ∧
@@ -536,6 +587,7 @@ theorem run_finished (h : SubTask m t) (p : Params) (s0 : St) {D : Rat} {n : Nat
          (Nat.repeat (iter m p) (K + 2 + j) s0).live.rem t = 0 := by
   obtain ⟨w1, w2⟩ := run_working h p s0 hr hstart hrem hn K hK
   rw [hK'] at w2
+  rw [hK', occState, if_neg (by omega)] at w1
   refine ⟨⟨w1, w2, hn.rem_done⟩, ?_⟩
   have hfin := iter_working_done h p (Nat.repeat (iter m p) (K + 1) s0) w1
     (by rw [w2]; exact hn.rem_done)
@@ -544,25 +596,52 @@ theorem run_finished (h : SubTask m t) (p : Params) (s0 : St) {D : Rat} {n : Nat
   have := repeat_iter_finished (m := m) (t := t) p (Nat.repeat (iter m p) (K + 2) s0) hfin.1 j
   exact ⟨this.1, this.2.trans hfin.2⟩
 
-/-- the task is WORKING at the end of exactly the iterations `1, …, K + 1`, where iteration
-`K + 1` is the one in which the `n`-th active step happens -/
+/-- the task is WORKING at the end of exactly the iterations from the one of the first active
+step (`1 ≤ acts … j`) to iteration `K + 1`, the one in which the `n`-th active step happens -/
 theorem run_working_iff (h : SubTask m t) (p : Params) (s0 : St) {D : Rat} {n : Nat}
     (hr : 0 < (m.task t).autoRate)
     (hstart : (update m s0.time s0.live).tstate t = .ready) (hrem : s0.live.rem t = D)
-    (hn : IsCeil D (m.task t).autoRate n) (K : Nat)
+    (hn : IsCeil D (m.task t).autoRate n) (hn1 : 1 ≤ n) (K : Nat)
     (hK : acts p s0.time K < n) (hK' : acts p s0.time (K + 1) = n) (j : Nat) (hj : 1 ≤ j) :
-    (Nat.repeat (iter m p) j s0).live.tstate t = .working ↔ j ≤ K + 1 := by
+    (Nat.repeat (iter m p) j s0).live.tstate t = .working ↔ 1 ≤ acts p s0.time j ∧ j ≤ K + 1 := by
   constructor
   · intro hw
-    apply Nat.le_of_not_lt
-    intro hlt
-    have := (run_finished h p s0 hr hstart hrem hn K hK hK').2 (j - (K + 2))
-    rw [show K + 2 + (j - (K + 2)) = j by omega, hw] at this
-    cases this.1
-  · intro hle
+    have hle : j ≤ K + 1 := by
+      apply Nat.le_of_not_lt
+      intro hlt
+      have := (run_finished h p s0 hr hstart hrem hn hn1 K hK hK').2 (j - (K + 2))
+      rw [show K + 2 + (j - (K + 2)) = j by omega, hw] at this
+      cases this.1
+    refine ⟨?_, hle⟩
     obtain ⟨j', rfl⟩ : ∃ j', j = j' + 1 := ⟨j - 1, by omega⟩
-    exact (run_working h p s0 hr hstart hrem hn j'
+    have := (run_working h p s0 hr hstart hrem hn j'
       (Nat.lt_of_le_of_lt (acts_mono p s0.time (by omega)) hK)).1
+    rw [hw, occState] at this
+    apply Nat.pos_of_ne_zero
+    intro e; rw [if_pos e] at this; cases this
+  · intro ⟨hpos, hle⟩
+    obtain ⟨j', rfl⟩ : ∃ j', j = j' + 1 := ⟨j - 1, by omega⟩
+    have := (run_working h p s0 hr hstart hrem hn j'
+      (Nat.lt_of_le_of_lt (acts_mono p s0.time (by omega)) hK)).1
+    rw [this, occState, if_neg (by omega)]
+
+/-- before the first active step the task waits in READY with all its work -/
+theorem run_ready (h : SubTask m t) (p : Params) (s0 : St) {D : Rat} {n : Nat}
+    (hr : 0 < (m.task t).autoRate)
+    (hstart : (update m s0.time s0.live).tstate t = .ready) (hrem : s0.live.rem t = D)
+    (hn : IsCeil D (m.task t).autoRate n) (hn1 : 1 ≤ n) (j : Nat) (hj : 1 ≤ j)
+    (hz : acts p s0.time j = 0) :
+    (Nat.repeat (iter m p) j s0).live.tstate t = .ready ∧
+    (Nat.repeat (iter m p) j s0).live.rem t = D := by
+  obtain ⟨j', rfl⟩ : ∃ j', j = j' + 1 := ⟨j - 1, by omega⟩
+  have hlt : acts p s0.time j' < n := by
+    have := acts_le_succ p s0.time j'; omega
+  obtain ⟨w1, w2⟩ := run_working h p s0 hr hstart hrem hn j' hlt
+  rw [hz] at w1 w2
+  refine ⟨w1, ?_⟩
+  rw [w2]
+  have : ((0 : Nat) : Rat) = 0 := rfl
+  rw [this]; grind
 
 /-! ### the rows of the task-state log -/
 
